@@ -294,4 +294,9 @@ def xwikiStartFind (s : Str) : List InlineScan.M := InlineScan.findIter xwikiSta
 /-- `XWikiBlockMacroEnd.find(string)` -/
 def xwikiEndFind (s : Str) : List InlineScan.M := InlineScan.findIter xwikiEndAt s
 
+/-- kernel-evaluated instances (the same strings through CPython `re.finditer`) -/
+example : xwikiStartFind "a {{info t=\"x\"}}  \n\nb".toList = [{ start := 2, stop := 20, gs := 2, ge := 16 }] := by decide +kernel
+example : xwikiEndFind "x\n  {{/info}} y".toList = [{ start := 2, stop := 13, gs := 4, ge := 13 }] := by decide +kernel
+example : rawText "a--b [[c]] ~ //".toList = "a~--b ~[[c~]] ~~ ~//".toList := by decide +kernel
+
 end Mistletoe.XWiki
